@@ -74,18 +74,21 @@ Section Derived.
   (* matrix.rs (repaired): one triplet per stored pair, weight 1 for an
      unweighted edge, mirrored for an undirected non-loop pair.  The sparse
      matrix is observed as its list of (row, col, value) triplets. *)
+  Definition matrix_cell (s : specs) (u : nat) (acc2 : list (nat * nat * weight)) (ve : nat * list edge)
+    : outcome (list (nat * nat * weight)) :=
+    let '(v, es) := ve in
+    match es with
+    | [] => Panic "matrix.rs:edges[0]"
+    | e :: _ =>
+      let w := match ew e with None => Some 1%Z | Some z => Some z end in
+      let acc3 := acc2 ++ [(u, v, w)] in
+      Ok (if negb (directed s) && negb (Nat.eqb u v) then acc3 ++ [(v, u, w)] else acc3)
+    end.
+
+  Definition matrix_row (s : specs) (acc : list (nat * nat * weight)) (uv : nat * list (nat * list edge))
+    : outcome (list (nat * nat * weight)) :=
+    let '(u, hm) := uv in ofold (matrix_cell s u) hm acc.
+
   Definition matrix_triplets (g : gstate) : outcome (list (nat * nat * weight)) :=
-    if multi (sp g) then Err WrongMethod else
-    ofold (fun acc uv =>
-             let '(u, hm) := uv in
-             ofold (fun acc2 ve =>
-                      let '(v, es) := ve in
-                      match es with
-                      | [] => Panic "matrix.rs:edges[0]"
-                      | e :: _ =>
-                        let w := match ew e with None => Some 1%Z | Some z => Some z end in
-                        let acc3 := acc2 ++ [(u, v, w)] in
-                        Ok (if negb (directed (sp g)) && negb (Nat.eqb u v)
-                            then acc3 ++ [(v, u, w)] else acc3)
-                      end) hm acc) (edges_map g) [].
+    if multi (sp g) then Err WrongMethod else ofold (matrix_row (sp g)) (edges_map g) [].
 End Derived.
